@@ -7,6 +7,7 @@ import (
 	"path/filepath"
 	"sort"
 	"strings"
+	"time"
 
 	"github.com/nyaruka/gocommon/uuids"
 	"github.com/nyaruka/goflow/assets"
@@ -38,7 +39,10 @@ func (p *c08) Rule() string {
 }
 
 func (p *c08) Directed() []string {
-	return []string{"two-languages-different-refs", "two-webhook-headers", "many-issues-one-node", "case-variant-json-keys", "clone-with-ui-and-localization", "custom-number-format-then-default", "many-results-fields-groups", "number-format-comma-space", "number-format-comma-dot", "number-format-dot-space", "number-format-dot-comma"}
+	return []string{"two-languages-different-refs", "two-webhook-headers", "many-issues-one-node", "case-variant-json-keys", "clone-with-ui-and-localization", "custom-number-format-then-default", "many-results-fields-groups", "number-format-comma-space", "number-format-comma-dot", "number-format-dot-space", "number-format-dot-comma",
+		// a session that recreates @webhook from a result's extra after being re-read (the recreated value is marked
+		// deprecated), for every kind of bare JSON body, each followed by a session that reads the same kinds of JSON value
+		"reread-webhook-true", "json-value-readers-1", "reread-webhook-false", "json-value-readers-2", "reread-webhook-null", "json-value-readers-3", "reread-webhook-number", "reread-webhook-string", "reread-webhook-array", "reread-webhook-empty", "json-value-readers-4"}
 }
 
 func (p *c08) Floors(tier string) []string {
@@ -109,6 +113,21 @@ func (p *c08) directed(name string) *gen.Scenario {
 			d.Node("r1", nil, d.Switch("@input.text", []gen.M{num, oth}, oth, []gen.M{{"type": "has_number_gt", "arguments": []string{"100"}, "category_uuid": num["uuid"]}, {"type": "has_number", "category_uuid": num["uuid"]}}, gen.M{"type": "msg"}, "Amount"), d.Exit("r1num", "a2"), d.Exit("r1oth", "a2")),
 			d.Node("a2", []any{d.SendMsg("m", "@results.amount.value @(format_number(1234.5)) @(number(results.amount.value) + 1) @(has_number(input.text).match) @(text(1234.5))")}, nil, d.Exit("a2x", "r1")))),
 			Trigger: t, Resumes: []gen.M{d.MsgResume(0, "1.234,50"), d.MsgResume(1, "1 234,50"), d.MsgResume(2, "1,234.50"), d.MsgResume(3, "1.234.567")}}
+	case "reread-webhook-true", "reread-webhook-false", "reread-webhook-null", "reread-webhook-number", "reread-webhook-string", "reread-webhook-array", "reread-webhook-empty":
+		cmd := strings.TrimPrefix(name, "reread-webhook-")
+		return &gen.Scenario{Reread: true, Assets: d.BaseAssets(d.Flow("A", "messaging",
+			d.Node("a1", []any{act("w", "call_webhook", gen.M{"method": "GET", "url": "http://localhost/?cmd=" + cmd, "result_name": "webhook"}), d.SendMsg("m1", "before: @webhook @webhook.json @(json(webhook.json))")}, nil, d.Exit("a1x", "a2")),
+			d.WaitNode("a2", "a3", nil),
+			d.Node("a3", []any{d.SendMsg("m2", "after: @webhook @webhook.json @(json(webhook)) @(webhook.json) @results.webhook.extra @legacy_extra")}, nil, d.Exit("a3x", "")))),
+			Trigger: d.Manual("A", nil), Resumes: []gen.M{d.MsgResume(0, "x")}}
+	case "json-value-readers-1", "json-value-readers-2", "json-value-readers-3", "json-value-readers-4":
+		t := d.Manual("A", nil)
+		t["params"] = gen.M{"vip": true, "blocked": false, "ref": nil, "n": 0, "s": "", "list": []any{}, "obj": gen.M{}, "flags": []any{true, false, nil, 0, ""}}
+		return &gen.Scenario{Assets: d.BaseAssets(d.Flow("A", "messaging", d.Node("a1", []any{
+			act("w", "call_webhook", gen.M{"method": "GET", "url": "http://localhost/?cmd=flags", "result_name": "webhook"}),
+			d.SendMsg("m1", "@trigger.params.vip @(trigger.params.blocked) @(trigger.params.ref) @trigger.params.n @(trigger.params.s) @(trigger.params.list) @(trigger.params.obj) @(trigger.params.flags[0]) @(trigger.params.flags[1])"),
+			d.SendMsg("m2", "@webhook.json.vip @(webhook.json.blocked) @(webhook.json.ref) @(parse_json(\"true\")) @(parse_json(\"[false, null, 0]\")[0]) @(if(trigger.params.vip, 1, 2)) @(1 = 1) @(1 = 2) @(boolean(\"\"))"),
+		}, nil, d.Exit("a1x", "")))), Trigger: t}
 	case "many-results-fields-groups":
 		var acts []any
 		for i, n := range []string{"Zeta", "alpha", "Beta", "gamma", "Delta", "eps", "Eta"} {
@@ -184,9 +203,17 @@ func (p *c08) outputsN(scen *gen.Scenario, seed int64, rot int, res *fw.Result, 
 			res.Count("outputs."+strings.SplitN(label, "[", 2)[0], 1)
 		}
 	}
+	// every second case persists and re-reads its session at every wait (a pure function of the case, so every
+	// execution of the case does the same)
+	reread := rot%2 == 1 || scen.Reread
 	rn.RunAll(func(rec *drive.CallRecord) {
 		if count {
 			observeCommon(res, rec)
+		}
+		if reread && rec.OK() && rn.Waiting() {
+			if err := rn.Restart(); err == nil && count {
+				res.Count("seen.restarts", 1)
+			}
 		}
 		tag := fmt.Sprintf("sprints[%d]", rec.Index)
 		switch {
@@ -451,8 +478,11 @@ func globalsSnapshot() map[string]string {
 		"types.XArrayEmpty":        fmt.Sprint(types.XArrayEmpty.Count()),
 		"types.XTextEmpty":         types.XTextEmpty.Native(),
 		"cases.FalseResult":        string(marshalJSON(cases.FalseResult)),
-		"registry.tests":           fmt.Sprint(len(cases.XTESTS)),
-		"migrations.registered":    fmt.Sprint(len(migrations.Registered())),
+		// the shared singleton values: their payload and the deprecation note any value can carry
+		"types.singletons":            fmt.Sprintf("%v|%v|%s|%s|%s|%s|%s|%s", types.XBooleanTrue.Native(), types.XBooleanFalse.Native(), types.XNumberZero.Native().String(), types.XDateTimeZero.Native().UTC().Format(time.RFC3339Nano), types.XDateZero.Native().String(), types.XTimeZero.Native().String(), types.XTextEmpty.Native(), marshalJSON(cases.FalseResult)),
+		"types.singletons.deprecated": strings.Join([]string{types.XBooleanTrue.Deprecated(), types.XBooleanFalse.Deprecated(), types.XNumberZero.Deprecated(), types.XDateTimeZero.Deprecated(), types.XDateZero.Deprecated(), types.XTimeZero.Deprecated(), types.XTextEmpty.Deprecated(), types.XArrayEmpty.Deprecated(), types.XObjectEmpty.Deprecated(), cases.FalseResult.Deprecated()}, "|"),
+		"registry.tests":              fmt.Sprint(len(cases.XTESTS)),
+		"migrations.registered":       fmt.Sprint(len(migrations.Registered())),
 	}
 }
 
